@@ -20,3 +20,17 @@ Definition vcase_ok (c : nat * bool * bool) : bool :=
     Bool.eqb reads_old (match reads s' with Some 7 => true | _ => false end) &&
     Bool.eqb listed (existsb (fun e => Nat.eqb (fst e) 1 && Nat.eqb (snd e) 7) (shown s'))
   end.
+
+(* a directory-object upload killed after its n-th attribute write (Model/CrashDirObj.v): the directory held the user metadata
+   {1:10, 2:20, 3:30} (existing) or was no object; the upload carries {1:11, 4:40, 3:31}. Class: 0 nothing listed, 1 the old state,
+   2 the new state, 9 neither *)
+From VGW Require Import Model.CrashDirObj.
+Definition d_old : list (nat * nat) := [(1, 10); (2, 20); (3, 30)].
+Definition d_new : list (nat * nat) := [(1, 11); (4, 40); (3, 31)].
+Definition dclass (existing : bool) (n : nat) : nat :=
+  let s0 := if existing then {| is_object := true; umeta := d_old |} else {| is_object := false; umeta := [] |} in
+  match shows (killed_after s0 d_new n) with
+  | None => 0
+  | Some m => if same_meta m d_new then 2 else if same_meta m d_old then 1 else 9
+  end.
+Definition dcase_ok (c : bool * nat * nat) : bool := match c with (ex, n, cl) => Nat.eqb (dclass ex n) cl end.
